@@ -29,9 +29,22 @@ func scenC08(k *K) {
 	windows := 0
 	multi := false
 	prevList := make([][]string, n)
+	reusedClocks := make([]bool, n)
 	k.Invariant = func() {
 		for i, s := range c.Stores {
+			if s == nil {
+				continue
+			}
 			cur := LogHashSeq(s)
+			if reusedClocks[i] {
+				// this writer wrote before its persisted log was back (see below): only
+				// "what is listed stays listed" is demanded from here on
+				if !isSubset(prev[i], cur) {
+					k.Failf("C08/entry-vanished", "n%d: an entry of the log %v is gone from %v", i, c.names(prev[i]), c.names(cur))
+				}
+				prev[i] = cur
+				continue
+			}
 			if !isSubsequence(prev[i], cur) {
 				k.Failf("C08/not-append-only", "n%d log order changed from %v to %v (an entry vanished or two entries swapped)", i, c.names(prev[i]), c.names(cur))
 			}
@@ -97,6 +110,12 @@ func scenC08(k *K) {
 					k.Failf("C08/list-error", "List(-1) concurrent with local writes: done=%v err=%v", k.IsDone(r), r.Err)
 				}
 				got := r.Val.([]string)
+				if reusedClocks[node] {
+					if !isSubset(pre, got) {
+						k.Failf("C08/entry-vanished", "List(-1) issued while %d entries were listed lacks one of them: %v (%v)", len(pre), c.names(got), c.names(pre))
+					}
+					continue
+				}
 				if !isSubsequence(pre, got) {
 					k.Failf("C08/window/concurrent-all", "List(-1) issued while %d entries were listed and local writes were under way returned %v: an entry listed before is missing or out of order (%v)", len(pre), c.names(got), c.names(pre))
 				}
@@ -106,6 +125,51 @@ func scenC08(k *K) {
 				k.W.Stat("list-concurrent-with-writes")
 			}
 			k.Steps(k.C.Intn(6))
+			continue
+		}
+		if len(c.Writes) > 0 && k.opsInFlightOn(node) == 0 && k.C.Chance(1, 16) {
+			// clean restart; the application writes while Load(-1) is still reading the
+			// persisted log back: what is listed at any moment of this session stays listed
+			// (such a writer uses Lamport times again that its unloaded entries carry; the order
+			// of two entries with the same writer and time depends on the order of arrival,
+			// which is outside what C08 quantifies over: multi-writer merge histories, no
+			// restarts. The order clauses are therefore not applied to this replica any more.)
+			c.Down(node, false)
+			prev[node], prevList[node] = nil, nil
+			for j := range reusedClocks {
+				reusedClocks[j] = true // the entries travel
+			}
+			if err := c.UpWithoutLoad(node); err != nil {
+				k.Failf("C08/restart-error", "reopen of n%d failed: %v", node, err)
+			}
+			st := c.Stores[node]
+			c.Peers[node].Inc.SetSlowLocal(true)
+			lop := k.Go(node, "load -1", func() (interface{}, error) {
+				ctx, cancel := OpCtx(10 * time.Minute)
+				defer cancel()
+				return nil, st.Load(WithOfflineReads(ctx), -1)
+			})
+			saved := k.F
+			k.F = FaultCfg{Serve: 3, ServeAny: 1}
+			k.Steps(k.C.Intn(5))
+			for j, m := 0, k.C.Range(1, 2); j < m; j++ {
+				val := c.NextVal(node)
+				if _, err := c.Write(node, "add "+val, func(ctx context.Context) (operation.Operation, error) {
+					return st.(iface.EventLogStore).Add(ctx, []byte(val))
+				}); err != nil {
+					k.Failf("C08/write-error", "Add during Load failed: %v", err)
+				}
+				k.Steps(k.C.Intn(3))
+			}
+			for j := 0; j < 400 && !k.IsDone(lop); j++ {
+				k.Step()
+			}
+			k.F = saved
+			c.Peers[node].Inc.SetSlowLocal(false)
+			if !k.IsDone(lop) || lop.Err != nil {
+				k.Failf("C08/restart-error", "Load(-1) after the restart of n%d: done=%v err=%v", node, k.IsDone(lop), lop.Err)
+			}
+			k.W.Stat("restart-with-writes-during-load")
 			continue
 		}
 		el := c.Stores[node].(iface.EventLogStore)
@@ -140,6 +204,19 @@ func (c *Cluster) names(hs []string) []string {
 		out[i] = c.nameOf(h)
 	}
 	return out
+}
+
+func isSubset(a, b []string) bool {
+	in := map[string]bool{}
+	for _, x := range b {
+		in[x] = true
+	}
+	for _, x := range a {
+		if !in[x] {
+			return false
+		}
+	}
+	return true
 }
 
 func isSubsequence(a, b []string) bool {
